@@ -1,6 +1,6 @@
 """C15 — DNS client (DESIGN §4 C15)."""
 from tbxlint.facts import extract, AnalysisBroken, MODULES
-from tbxlint import locks, q, exc, rd, reent
+from tbxlint import tmon, locks, q, exc, rd, reent
 
 DNS = 'tbox::network::DnsRequest'
 DES = 'tbox::util::Deserializer'
@@ -335,4 +335,5 @@ def run(ctx):
     ctx.guard(r4, ctx, prog)
     ctx.guard(r5, ctx, prog)
     ctx.guard(r6, ctx, prog)
+    ctx.guard(tmon.run, ctx, prog, 'C15.R7')
     return prog
